@@ -10,7 +10,9 @@ for p in /verif/mutants/*/*.patch; do
   cd $WT; git checkout -q -- . ; git clean -fdq
   if ! patch -p1 -s --no-backup-if-mismatch < $p; then echo "$(basename $(dirname $p))/$(basename $p) DOES-NOT-APPLY" >> $OUT; continue; fi
   if ! cargo build --offline -q 2>/dev/null; then echo "$(basename $(dirname $p))/$(basename $p) BUILD-FAILS" >> $OUT; continue; fi
-  T=$(timeout 600 cargo test --offline 2>&1 | grep -E "^test result" | head -1)
+  T=$(timeout 300 cargo test --offline 2>&1 | grep -E "^test result" | head -1)
+  # a mutant that makes a test loop: timeout kills cargo, not the test binary, which keeps the pipe open
+  pkill -f "$CARGO_TARGET_DIR/debug/deps/asc[a]-" 2>/dev/null
   echo "$(basename $(dirname $p))/$(basename $p) ${T:-NO-RESULT}" >> $OUT
 done
 cd /; git -C /repo worktree remove --force $WT
